@@ -100,7 +100,7 @@ def run(chk: harness.Check):
     sub = harness.Check("C12", chk.tier)
     c12.run(sub)
     harness.fold(chk, sub, lambda r: "C09.D7-fraction-exact." + r.split(".", 1)[1] if r.startswith("C12.") else r,
-                 keep=lambda r: r in ("C12.D1-agreement", "C12.D2-limits", "anchor-missing"))
+                 keep=lambda r: r in ("C12.D1-agreement", "C12.D2-limits", "C12.D6-err-carried", "anchor-missing"))
     chk.analysed["facts"] = th
 
 
@@ -197,8 +197,14 @@ def d6_si_expansion(chk, F, rule):
                    sample=f"{where}: ratio = unit.ratio * prefix.ratio()")
         for fld in ("difference", "physical_quantity", "system"):
             e = resolve(ff, d[fld])
+            # `..unit.unit.clone()` (struct update from a clone of the base): the field of the clone is the field of the base
+            if e[0] == "place" and e[1][0] == "call" and e[1][1].endswith("Clone>::clone") and e[1][2]:
+                inner = e[1][2][0]
+                while inner[0] == "ref":
+                    inner = inner[1]
+                e = ("place", inner, e[2]) + tuple(e[3:])
             ls = leaves(e)
-            ok = e[0] in ("place", "upvar", "param") and any(l in ("param:unit", "upvar:unit") for l in ls) and show(e, -50).endswith("." + fld)
+            ok = e[0] in ("place", "upvar", "param") and any(l.split(".")[0] in ("param:unit", "upvar:unit") for l in ls) and show(e, -50).endswith("." + fld)
             chk.expect(ok, rule, f"expand_si|{fld}", where, f"a prefixed unit must inherit the base unit's {fld}; it gets {show(e, -50)[:100]}",
                        sample=f"{where}: {fld} = unit.{fld}")
     whole = []
